@@ -10,6 +10,26 @@ CLAIMED = {
           "Seeded search over call histories (all op kinds, commit schedules, clearCaches, restarts, idle gaps, regrowth) with reorgs at depths -1..12; every reorg is judged by the admission oracle and every accepted one by full-observation equality with a fresh replay of the canonical chain up to N, then both sides are extended with the same blocks. Sampling, not proof.",
           "Real engine/RPC handlers/revm/RocksDB on tmpfs driven in-process; Bitcoin node stubbed as unreachable; program space = hand-assembled contract library; brc20_mine(n) treated as n x mine(1) on replay.",
           "DESIGN.md 4 C01"),
+  "C02": ("exploration", "deterministic simulation: lockstep replicas with seeded hash-container order, commit/restart schedules; pinned golden transcript digests; cross-process re-execution",
+          "One seeded history is fed to three replicas differing only in what the property says must not matter (hash seed, commit schedule, commit+restart points, directory); every call result and sampled boundary observations are compared with list order preserved. Pinned golden corpora (explicit call lists + digests per protocol/db version) are replayed in every batch, and a sample of runs is re-executed in a second OS process. Sampling, not proof.",
+          "Golden digests drop error message text. std RandomState inside dependencies (revm) is not seeded; its effects are covered only by the cross-process re-execution.",
+          "DESIGN.md 4 C02"),
+  "C03": ("exploration", "deterministic simulation: commit-schedule/clearCaches/restart fault injection against an undisturbed never-committing twin and fresh replay to the last commit",
+          "Seeded histories crossed with commit schedules, clearCaches (boundary and mid-block) and restarts; oracles: equality with a twin that never commits, equality with a fresh replay up to the last committed height after a loss, and re-convergence after the lost calls are fed again. Sampling, not proof.",
+          "Process stop = dropping the engine and reopening the RocksDB directories (completed writes survive). Reorgs excluded here (covered by C01/C04).",
+          "DESIGN.md 4 C03"),
+  "C05": ("exploration", "deterministic simulation: out-of-protocol call injection at every position class, before/after observation + clean-twin oracle",
+          "Seeded valid histories with 21 kinds of malformed / out-of-protocol calls injected at block boundaries and mid-block; listed kinds must be rejected, rejected calls must leave observations unchanged, and the history must stay equal to a clean twin without the injected calls. Sampling, not proof.",
+          "State of the block under construction is observed indirectly (continuation of the block and the clean twin).",
+          "DESIGN.md 4 C05"),
+  "C06": ("exploration", "deterministic simulation with a runtime coherence monitor (own bloom, own SHA-256 merkle, RLP decoding in the harness) at every block boundary",
+          "Seeded histories of all op kinds incl. reorg + regrowth and all commit schedules; after every finalise the newest blocks and at the end all heights are checked against independently recomputed blooms, merkle roots, sums and RLP decodings and against the receipts the indexer was handed. Sampling, not proof.",
+          "Two understood hash-collision situations are recorded as known findings and their by-hash checks are skipped for the colliding transactions only.",
+          "DESIGN.md 4 C06"),
+  "C10": ("exploration", "deterministic simulation: read requests injected at every boundary / mid-block, before/after observation, twin without reads, on-disk comparison after commit",
+          "Seeded histories with executing reads running state-mutating bytecode (eth_call, eth_callMany with carry-over/overrides, estimateGas(Many), brc20_balance) and getters; oracles: observation unchanged by each read, equality with a twin that never reads, and key-by-key equality of all RocksDB directories after a final commit. Sampling, not proof.",
+          "mineTimestamp masked in stored block rows.",
+          "DESIGN.md 4 C10"),
 }
 
 NOT_APPLICABLE = {
